@@ -37,6 +37,7 @@ VIRT = ['a', 'b', 'c', 'd', 'e', 'f', 'a1', 'b2', 'g', 'c7']
 def floors(tier):
     return {'energy_compared': 6, 'amplitude_points': 100,
             'expectation_compared': 3, 'residual_sensitive': 2,
+            'norm_compared': 8,
             'nonzero_reference_points': 50}
 
 
@@ -79,6 +80,23 @@ def gen_cases(tier, seed):
                     dims=r.choice([(2, 2), (3, 3)]), cost=10 + 20 * order)
         add(variant=variant, singles=False, q='ev', order=2, k=2, dims=(2, 2),
             cost=60)
+        # norm factor / overlap series incl. the orders where a factor occurs twice
+        for singles in (False, True):
+            for order in range(2, 6):
+                add(variant=variant, singles=singles, q='norm', order=order,
+                    dims=r.choice([(2, 2), (3, 3)]), cost=5 * order)
+            for order in range(2, 5):
+                add(variant=variant, singles=singles, q='overlap', order=order,
+                    dims=r.choice([(2, 2), (3, 3)]), cost=5 * order)
+            add(variant=variant, singles=singles, q='ev', order=3, k=1,
+                dims=r.choice([(2, 2), (3, 3)]), cost=40)
+            if variant == 're':
+                add(variant=variant, singles=singles, q='amp', order=3, k=1,
+                    dims=(3, 3), cost=40)
+                add(variant=variant, singles=singles, q='amp', order=3, k=2,
+                    dims=(2, 2), cost=90)
+        add(variant=variant, singles=False, q='ev', order=4, k=1, dims=(2, 2),
+            cost=120)
     if tier == 'thorough':
         for variant in ('mp', 're'):
             for singles in (False, True):
@@ -224,6 +242,28 @@ def run_case(case, res):
                 f'[singles={singles}] does not vanish for the explicit RE '
                 f'wavefunction: {nzv} of {val.size} points non-zero, first '
                 f'{bad[0].tolist()} on model {case["dims"]}')
+        return
+    if q in ('norm', 'overlap'):
+        from ..fock import Series
+        S = Series(ref.fs, order)
+        psi = [dict(v) for v in ref.rspt.psi[:order + 1]]
+        ov = S.dot(psi, psi)
+        if q == 'norm':
+            expr = lib_call(gs.norm_factor, order)
+            exp = S.sinv(ov)[order] % p
+        else:
+            expr = lib_call(gs.overlap, order)
+            exp = ov[order] % p
+        val = int(ref.ev.value(expr, []))
+        res.count('norm_compared')
+        res.count('points_compared')
+        res.nontrivial = exp != 0
+        res.count('nonzero_reference_points', int(exp != 0))
+        res.observed = {'terms': _nterms(expr), 'library': val, 'explicit': exp}
+        if val != exp:
+            res.violation(f'{variant} {q}({order}) [singles={singles}] = {val} != '
+                          f'explicit series coefficient {exp} (mod {p}) on model '
+                          f'{case["dims"]}')
         return
     if q == 'ev':
         kp = case['k']
